@@ -242,6 +242,7 @@ class NPProxy:
     tanh = _elementwise("tanh")
     arcsinh = _elementwise("arcsinh")
     arctan = _elementwise("arctan")
+    arcsin = _elementwise("arcsin")
     sin = _elementwise("sin")
     cos = _elementwise("cos")
     tan = _elementwise("tan")
